@@ -449,19 +449,16 @@ func (ma *ModuleAnalyzer) resolveAbsoluteImportWithProject(imp *ImportInfo, from
 		return ""
 	}
 
-	// Check cache first
-	if resolved, exists := ma.resolvedModules[moduleName]; exists {
-		return resolved
-	}
-
-	// First, try to resolve within the current project directory
-	// Build possible module path relative to the file's directory
+	// Python resolves an absolute import from the project root, whatever
+	// directory the importing file is in. Only when the root has no such module
+	// fall back to the file's own directory and its parent (script-style
+	// layouts). These lookups depend on the importing file, so their results
+	// are not shared between files through the cache.
 	currentDir := filepath.Dir(fromFile)
 
-	// Try to find the module in the same directory or project root
 	searchPaths := []string{
-		currentDir,               // Current directory
 		ma.projectRoot,           // Project root
+		currentDir,               // Current directory
 		filepath.Dir(currentDir), // Parent directory
 	}
 
@@ -474,7 +471,6 @@ func (ma *ModuleAnalyzer) resolveAbsoluteImportWithProject(imp *ImportInfo, from
 			// Calculate the module name based on project structure
 			resolvedName := ma.filePathToModuleName(moduleFile)
 			if resolvedName != "" {
-				ma.resolvedModules[moduleName] = resolvedName
 				return resolvedName
 			}
 		}
@@ -485,7 +481,6 @@ func (ma *ModuleAnalyzer) resolveAbsoluteImportWithProject(imp *ImportInfo, from
 			if resolvedName != "" {
 				// For __init__.py files, use the package name (without __init__)
 				resolvedName = strings.TrimSuffix(resolvedName, ".__init__")
-				ma.resolvedModules[moduleName] = resolvedName
 				return resolvedName
 			}
 		}
